@@ -174,6 +174,7 @@ var Mutants = map[string][]Mutant{
 		{"Join passes radians to ArcTo", "path.go", `p\.ArcTo\(d\[1\], d\[2\], d\[3\]\*180\.0/math\.Pi, large, sweep, d\[5\], d\[6\]\)`, `p.ArcTo(d[1], d[2], d[3], large, sweep, d[5], d[6])`, "E8.units"},
 	},
 	"C08": {
+		{"FastBounds boxes an arc by its axis end points (seed C08n)", "path.go", `(\t\t\tcx, cy, _, _ := ellipseToCenter\(start\.X, start\.Y, rx, ry, phi, large, sweep, end\.X, end\.Y\)\n\t\t\tr := )math\.Max\(rx, ry\)`, "${1}math.Max(math.Abs(rx*math.Cos(phi)), math.Abs(ry*math.Sin(phi)))", "E3.mirror"},
 		{"Bounds guarded by Empty, FastBounds by the length (seed C08m)", "path.go", `(func \(p \*Path\) Bounds\(\) Rect \{\n\tif )len\(p\.d\) < 4`, "${1}p.Empty()", "E3.bounds-guard-agreement"},
 		{"radii correction rotates the chord by +phi", "path_util.go", `(?s)(func ellipseRadiiCorrection\(.*?)x1p := \(cosphi\*diff\.X \+ sinphi\*diff\.Y\) / 2\.0\n\ty1p := \(-sinphi\*diff\.X \+ cosphi\*diff\.Y\) / 2\.0`, "${1}x1p := (cosphi*diff.X - sinphi*diff.Y) / 2.0\n\ty1p := (sinphi*diff.X + cosphi*diff.Y) / 2.0", "E3.ellipse-frame"},
 		{"Transform keeps the arc rotation for |m00| == |m11|", "path.go", `(?s)(func \(p \*Path\) Transform\(m Matrix\) \*Path \{.*?\t\t\tend := Point\{p\.d\[i\+5\], p\.d\[i\+6\]\}\n)(\n\t\t\t// For ellipses written as the conic)`, "${1}\t\t\tif Equal(m[0][1], 0.0) && Equal(m[1][0], 0.0) && Equal(math.Abs(m[0][0]), math.Abs(m[1][1])) {\n\t\t\t\tif xscale*yscale < 0.0 {\n\t\t\t\t\tsweep = !sweep\n\t\t\t\t}\n\t\t\t\tend = m.Dot(end)\n\t\t\t\tp.d[i+1], p.d[i+2], p.d[i+4] = rx*math.Abs(m[0][0]), ry*math.Abs(m[0][0]), fromArcFlags(large, sweep)\n\t\t\t\tp.d[i+5], p.d[i+6] = end.X, end.Y\n\t\t\t\ti += cmdLen(cmd)\n\t\t\t\tcontinue\n\t\t\t}\n${2}", "E11.arc-rotation-rewritten"},
@@ -211,6 +212,7 @@ var Mutants = map[string][]Mutant{
 		{"quad case reads offset 5", "path.go", `\t\tcase QuadToCmd:\n\t\t\tcp := Point\{p\.d\[i\+1\], p\.d\[i\+2\]\}\n\t\t\tend = Point\{p\.d\[i\+3\], p\.d\[i\+4\]\}\n\t\t\txmin = math\.Min\(xmin, math\.Min\(cp\.X, end\.X\)\)`, "\t\tcase QuadToCmd:\n\t\t\tcp := Point{p.d[i+1], p.d[i+2]}\n\t\t\tend = Point{p.d[i+5], p.d[i+6]}\n\t\t\txmin = math.Min(xmin, math.Min(cp.X, end.X))", "E2.layout"},
 	},
 	"C10": {
+		{"Close keeps the end point of the LineTo it retags (reverts fix 28f64a0)", "path.go", `(// replace LineTo by Close if equal\n\t\tp\.d\[len\(p\.d\)-cmdLen\(LineToCmd\)\] = CloseCmd\n)\t\tp\.d\[len\(p\.d\)-3\] = end\.X\n\t\tp\.d\[len\(p\.d\)-2\] = end\.Y\n`, "${1}", "E11.close-returns-to-start"},
 		{"Coords compares end points bit for bit (seed C10n)", "path.go", `!coords\[len\(coords\)-1\]\.Equals\(Point\{p\.d\[i-3\], p\.d\[i-2\]\}\)`, "coords[len(coords)-1] != (Point{p.d[i-3], p.d[i-2]})", "E11.point-compare-tolerant"},
 		{"QuadTo line test from the start only", "path.go", `\(start\.Equals\(cp\) \|\| angleEqual\(end\.Sub\(start\)\.AngleBetween\(cp\.Sub\(start\)\), 0\.0\)\) && \(end\.Equals\(cp\) \|\| angleEqual\(end\.Sub\(start\)\.AngleBetween\(end\.Sub\(cp\)\), 0\.0\)\)`, "(start.Equals(cp) || end.Equals(cp) || angleEqual(end.Sub(start).AngleBetween(cp.Sub(start)), 0.0))", "E11.quad-line-test-mirror"},
 		{"Arc hands the rotation in degrees to EllipsePos", "path.go", `p0 := EllipsePos\(rx, ry, phi, 0\.0, 0\.0, theta0\)`, "p0 := EllipsePos(rx, ry, rot, 0.0, 0.0, theta0)", "E8.units"},
@@ -230,7 +232,7 @@ var Mutants = map[string][]Mutant{
 		{"dashCanonical edits the caller's array", "path.go", `\td = append\(\[\]float64\{\}, d\.\.\.\) // d is modified below[^\n]*\n`, ``, "E1.no-mutation"},
 		{"Split hands out growable sub-slices", "path.go", `ps = append\(ps, &Path\{p\.d\[i:j:j\]\}\)\n\t\t\ti = j`, "ps = append(ps, &Path{p.d[i:j]})\n\t\t\ti = j", "E11.split-cap"},
 		{"Grid translates the shared cell", "shapes.go", `cell\.Copy\(\)\.Translate\(x, y\)`, `cell.Translate(x, y)`, "E11.accumulate"},
-		{"Close retags one end only", "path.go", `\t\tp\.d\[len\(p\.d\)-1\] = CloseCmd\n\t\tp\.d\[len\(p\.d\)-cmdLen\(LineToCmd\)\] = CloseCmd\n`, "\t\tp.d[len(p.d)-1] = CloseCmd\n", "E2.retag"},
+		{"Close retags one end only", "path.go", `(// replace LineTo by Close if equal\n)\t\tp\.d\[len\(p\.d\)-cmdLen\(LineToCmd\)\] = CloseCmd\n`, "${1}", "E2.retag"},
 	},
 	"C11": {
 		{"rotate accepts two numbers", "svg.go", `if len\(d\) != 1 && len\(d\) != 3 \{`, "if len(d) == 0 || 3 < len(d) {", "E11.svg-transform"},
@@ -288,6 +290,7 @@ var Mutants = map[string][]Mutant{
 		{"PS eofill outside its guard", "renderers/ps/ps.go", `r\.w\.Write\(\[\]byte\(" fill"\)\)\n\t\t\}\n\t\tif style\.HasStroke\(\) && !strokeUnsupported \{\n\t\t\tr\.w\.Write\(\[\]byte\(" grestore"\)\)`, "r.w.Write([]byte(\" eofill\"))\n\t\t}\n\t\tif style.HasStroke() && !strokeUnsupported {\n\t\t\tr.w.Write([]byte(\" grestore\"))", "E6.enum"},
 	},
 	"C13": {
+		{"string value used as the format (seed C13p)", "renderers/pdf/writer.go", `w\.write\("\(%v\)", v\)`, "w.write(\"(\" + v + \")\")", "E5.format-constant"},
 		{"soft mask declared with one bit per sample (seed C13o)", "renderers/pdf/writer.go", `(\t\t\t\t"ColorSpace":       pdfName\("DeviceGray"\),\n\t\t\t\t"BitsPerComponent": )8,`, "${1}1,", "E5.image-sample-depth"},
 		{"catalog written before the language is added", "renderers/pdf/writer.go", `(?s)(\tif w\.lang != "" \{\n\t\tcatalog\["Lang"\] = encode\(w\.lang\)\n\t\}\n)(.*?)(\tw\.objOffsets\[0\] = w\.pos\n\tw\.write\("%v 0 obj\\n", 1\)\n\tw\.writeVal\(catalog\)\n\tw\.write\("\\nendobj\\n"\)\n)`, "${3}${1}${2}", "E5.dict-complete-before-write"},
 		{"DeviceGray declared for every grey colour model", "renderers/pdf/writer.go", `if _, ok := img\.\(\*image\.Gray\); ok \{`, "if m := img.ColorModel(); m == color.GrayModel || m == color.Gray16Model {", "E5.jpeg-colorspace"},
@@ -369,6 +372,7 @@ var Mutants = map[string][]Mutant{
 		{"setter writes the stack", "canvas.go", `func \(c \*Context\) SetStrokeWidth\(width float64\) \{\n`, "func (c *Context) SetStrokeWidth(width float64) {\n\tc.stack = nil\n", "E11.ctx-setter"},
 	},
 	"C16": {
+		{"computeSum stops at every legal penalty (seed C16o)", "text/linebreak.go", `item\.Penalty <= -Infinity && 0 < i`, "item.Penalty < Infinity && 0 < i", "E4.swallowed-glue-stops"},
 		{"cluster offset advanced by the rune count (seed C16n)", "text.go", `clusterOffset \+= uint32\(len\(run\.Text\)\)`, "clusterOffset += uint32(len([]rune(run.Text)))", "E11.cluster-offset-bytes"},
 		{"item boundary only where text and object placeholder meet", "text/text.go", `objectReplacementBoundary := r == unicode\.ReplacementChar \|\| 0 < j && runes\[j-1\] == unicode\.ReplacementChar`, "objectReplacementBoundary := 0 < j && (r == unicode.ReplacementChar) != (runes[j-1] == unicode.ReplacementChar)", "E11.object-own-item"},
 		{"vertical justify step multiplied by the line index", "text.go", `(?s)\t\tdy := 0\.0\n\t\tfor j := range t\.lines \{\n\t\t\tt\.lines\[j\]\.y \+= dy\n\t\t\tdy \+= ddy\n\t\t\}`, "\t\tfor j := range t.lines {\n\t\t\tt.lines[j].y += float64(j) * ddy\n\t\t}", "E4.unbounded-quotient-not-multiplied"},
@@ -415,6 +419,7 @@ var Mutants = map[string][]Mutant{
 		{"Linebreak looks at items[b+1] unguarded", "text/linebreak.go", `\(len\(lb\.items\) <= b\+1 \|\| lb\.items\[b\+1\]\.Type != PenaltyType\)`, `lb.items[b+1].Type != PenaltyType`, "E4.neighbour-guard"},
 	},
 	"C18": {
+		{"pending widths flushed only before a run that differs from /DW (seed C18p)", "renderers/pdf/writer.go", `\n\t\t\t\tif i < j \{\n`, "\n\t\t\t\tif i < j && widths[j] != DW {\n", "E5.w-array-pending-flushed"},
 		{"CIDToGIDMap high byte taken from the code", "renderers/pdf/writer.go", `cidToGIDMap\[j\+0\] = byte\(\(glyphID & 0xFF00\) >> 8\)`, "cidToGIDMap[j+0] = byte((subsetGlyphID & 0xFF00) >> 8)", "E5.cid-to-gid-entries"},
 		{"width table read from the embedded program by code", "renderers/pdf/writer.go", `for subsetGlyphID, glyphID := range glyphIDs \{\n\t\twidths\[subsetGlyphID\] = int\(f\*float64\(font\.SFNT\.GlyphAdvance\(glyphID\)\) \+ 0\.5\)`, "for subsetGlyphID := range glyphIDs {\n\t\twidths[subsetGlyphID] = int(f*float64(sfnt.GlyphAdvance(uint16(subsetGlyphID))) + 0.5)", "E5.width-id-space"},
 		{"WalkSpans swaps the face offsets in vertical modes", "text.go", `callback\(line\.y\+xOffset, -span\.X\+yOffset, span\)`, "callback(line.y-yOffset, -span.X-xOffset, span)", "E11.span-offset-axes"},
@@ -437,6 +442,7 @@ var Mutants = map[string][]Mutant{
 		{"vertical fonts written as horizontal", "renderers/pdf/writer.go", `w\.writeFonts\(w\.fontsV, true\)`, `w.writeFonts(w.fontsV, false)`, "E5.fontmaps"},
 	},
 	"C19": {
+		{"descendant combinator commits to the nearest matching ancestor (seed C19o)", "svg.go", `\t\t\tif sels\.appliesAt\(isel-1, elems, j\) \{\n\t\t\t\treturn true\n\t\t\t\}\n`, "\t\t\tif sels[isel-1].AppliesTo(elems[j]) {\n\t\t\t\treturn sels.appliesAt(isel-1, elems, j)\n\t\t\t}\n", "E11.selector-backtracks"},
 		{"a sign does not start a new number", "svg.go", `(?s)\t\tcase \(ch == '-' \|\| ch == '\+'\) && 0 < i && \('0' <= v\[i-1\] && v\[i-1\] <= '9' \|\| v\[i-1\] == '\.'\):\n\t\t\tsb\.WriteByte\(','\)\n\t\t\tsb\.WriteByte\(ch\)\n`, "", "E11.number-list-separators"},
 		{"style element read whatever closed its start tag", "svg.go", `if tt != xml\.StartTagCloseVoidToken \{ // <style/> has no content and no end tag`, "if true {", "E11.svg-style-element"},
 		{"imported dashes left in user units", "svg.go", `svg\.ctx\.Style\.DashOffset, svg\.ctx\.Style\.Dashes = ScaleDash\(1\.0/w, offset, dashes\)`, "svg.ctx.Style.DashOffset, svg.ctx.Style.Dashes = ScaleDash(1.0, offset, dashes)", "E11.svg-dash-units"},
